@@ -209,3 +209,56 @@ func ZZH13dSmartBreaks() {
 	sym.Assert(SameInts(d.Out, g.Dig), "smart-tree-as-if-semicolon-inserted")
 	sym.Cover("end")
 }
+
+// ZZH11Literals: the error contract on numeric tokens whose text the parser
+// must validate (out-of-range, truncated prefix forms, bad exponents), in
+// several expression contexts and all modes.
+func ZZH11Literals() {
+	lits := []struct {
+		t   token.Type
+		lit string
+	}{
+		{token.INT, "99999999999999999999"}, {token.INT, "0x"}, {token.INT, "0b"}, {token.INT, "08"},
+		{token.INT, "0xFFFFFFFFFFFFFFFFFF"}, {token.FLOAT, "1e999"}, {token.FLOAT, "1e"}, {token.FLOAT, "1.5e+"},
+		{token.INT, "9223372036854775807"}, {token.FLOAT, "1e308"},
+	}
+	l := lits[sym.Choose("literal", len(lits))]
+	shapes := [][]token.Type{
+		{token.INT},
+		{token.IDENT, token.LPAREN, token.INT, token.RPAREN},
+		{token.IDENT, token.PLUS, token.INT},
+		{token.LET, token.IDENT, token.ASSIGN, token.INT, token.SEMICOLON},
+		{token.IDENT, token.ASSIGN, token.LBRACKET, token.INT, token.COMMA, token.IDENT, token.RBRACKET},
+		{token.IF, token.LPAREN, token.INT, token.RPAREN, token.IDENT},
+		{token.MINUS, token.INT},
+		{token.IDENT, token.ASSIGN, token.LBRACE, token.IDENT, token.COLON, token.INT, token.RBRACE},
+	}
+	sh := shapes[sym.Choose("shape", len(shapes))]
+	s := &Script{}
+	for _, t := range sh {
+		if t == token.INT {
+			s.Toks = append(s.Toks, symTok(l.t, l.lit))
+		} else {
+			s.Toks = append(s.Toks, symTok(t, Lexeme(t)))
+		}
+	}
+	s.EOF = symTok(token.EOF, "")
+	tolerant, smart := sym.Bool("tolerant"), sym.Bool("smart")
+	sym.Observe("script", s.Types(), l.lit, tolerant, smart)
+	p := NewParser(s, tolerant, smart)
+	prog, err := p.ParseProgram()
+	errs := p.Errors()
+	sym.Assert((err != nil) == (len(errs) > 0), "error-iff-error-list-nonempty")
+	d := DigestOf(prog, false)
+	sym.Assert(!d.NilEntry, "no-nil-entry-in-statement-lists")
+	for _, e := range errs {
+		sym.Assert(rangeOfSomeToken(s, e.Range), "error-range-is-a-token-range")
+	}
+	if len(errs) == 0 {
+		sym.Assert(!d.Missing, "mandatory-children-present-when-no-error")
+		if !d.Missing {
+			compileAll(prog)
+		}
+	}
+	sym.Cover("end")
+}
